@@ -358,10 +358,11 @@ impl CompressorClient {
             .map_err(MonorailError::from)
     }
     pub(crate) async fn shutdown(&self) -> Result<(), MonorailError> {
-        self.req_tx
-            .send(CompressRequest::Shutdown)
-            .await
-            .map_err(MonorailError::from)
+        // Several clients share the channel of one compressor thread, and that thread exits
+        // (dropping its receiver) on the first shutdown request it receives. A closed channel
+        // here therefore means the thread has already shut down, which is what was asked for.
+        let _ = self.req_tx.send(CompressRequest::Shutdown).await;
+        Ok(())
     }
 }
 
